@@ -766,10 +766,9 @@ func (w *World) Apply(op Op) ApplyResult {
 }
 
 // applyBatch runs a whole batch (NewBatch, body, Commit) as one model mutation.
-func (w *World) applyBatch(op Op) ApplyResult {
+func (w *World) applyBatch(op Op) (res ApplyResult) {
 	staged := map[string]*string{}
 	var order []string
-	var res ApplyResult
 	var extra strings.Builder
 	defer func() { res.Extra = extra.String() }()
 	err := w.guard(func() error {
